@@ -119,6 +119,7 @@ def check(run, F, tier):
     interned = res["interned"]
     ptl = conn.wire_value(F, "mqtt::result_code::DisconnectReasonCode", "PacketTooLarge")
     problems = {}
+    total_size_fns = set()
     n_over = n_ok = 0
     for p in res["paths"]:
         if p.kind != "return":
@@ -127,8 +128,27 @@ def check(run, F, tier):
         for k, c in p.cons.items():
             if k[0] == "cmp" and k[1] == "Lt" and c[0] == "eq":
                 ke = conn.expand_all(interned, k)
-                if "maximum_packet_size_recv" in repr(ke[2]) and "remaining_length_to_total_size" in repr(ke[3]):
-                    over = (c[1] == 1)
+                if "maximum_packet_size_recv" in repr(ke[2]):
+                    # the other operand: f(remaining_length(raw_packet)) for a local function f (the total packet size)
+                    t3 = ke[3]
+                    fn_ = None
+                    while isinstance(t3, tuple) and t3 and t3[0] == "sym":
+                        t3 = t3[1]
+                    if isinstance(t3, tuple) and t3 and t3[0] == "call" and t3[1] in F.fns and "remaining_length" in repr(t3[2]):
+                        fn_ = t3[1]
+                    if fn_ is not None:
+                        total_size_fns.add(fn_)
+                        over = (c[1] == 1)
+                elif "maximum_packet_size_recv" in repr(ke[3]):
+                    t2 = ke[2]
+                    while isinstance(t2, tuple) and t2 and t2[0] == "sym":
+                        t2 = t2[1]
+                    if isinstance(t2, tuple) and t2 and t2[0] == "call" and t2[1] in F.fns and "remaining_length" in repr(t2[2]):
+                        # written as `total < limit` / `total >= limit`: a packet of exactly the limit counts as oversize,
+                        # while the sending side (C14-R1) refuses only `size > limit`
+                        total_size_fns.add(t2[1])
+                        over = (c[1] == 0)
+                        problems.setdefault("the receive gate treats a packet whose size equals the limit as oversize (`>=`), the send side refuses only `>`", p)
         stubs = [e for e in p.effects if e[0] == "stub"]
         w = [conn.ev_name(e) for e in (p.events() or ()) if not (isinstance(e, tuple) and e and e[0] == "sub")]
         if over is None:
@@ -152,37 +172,25 @@ def check(run, F, tier):
         r5.violation("process_recv_packet/" + pr, "process_recv_packet: " + pr, conn.path_summary(p) if p else None)
     if not problems:
         r5.ok("process_recv_packet", {"oversize_paths": n_over, "dispatch_paths": n_ok})
-    # width table
-    g = [x for x in F.fns.values() if x["path"].endswith("::remaining_length_to_total_size")]
-    if len(g) != 1:
-        r5.violation("width-table", "remaining_length_to_total_size anchor lost")
+    # width table: the function applied to the Remaining Length in the gate comparison is evaluated on concrete values on both
+    # sides of every width boundary (whatever its spelling: if-chain, match on ranges, arithmetic)
+    tsf = sorted(total_size_fns)
+    if len(tsf) != 1 or tsf[0] not in F.fns:
+        r5.violation("width-table", "the function that turns the Remaining Length into the total packet size was not identified in the gate comparison: %s" % tsf)
     else:
-        resw = conn.paths(F, g[0]["path"])
-        table = {}
-        for p in resw["paths"]:
-            if p.kind != "return":
-                continue
-            bounds = []
-            for k, c in p.cons.items():
-                if k[0] == "cmp" and k[1] == "Lt" and k[3][0] == "c":
-                    bounds.append((k[3][1], c == ("eq", 1)))
-            r = conn.expand_all(resw["interned"], p.ret)
-            # ret = 1 + bytes + rl : find the constant byte count
-            s = repr(r)
-            import re as _re
-            m = _re.findall(r"\('c', (\d), 'u32'\)", s)
-            table[tuple(sorted(bounds))] = m
-        # constant part of the result = 1 (fixed header byte) + width of the remaining-length field
-        want = {((128, True),): "2", ((128, False), (16384, True)): "3", ((128, False), (16384, False), (2097152, True)): "4",
-                ((128, False), (16384, False), (2097152, False)): "5"}
-        good = len(table) == 4
-        for k, tot in want.items():
-            got = table.get(tuple(sorted(k)))
-            if got != [tot]:
-                good = False
-        if good:
-            r5.ok("width-table", "128/16384/2097152 -> 1/2/3/4 bytes, +1 fixed header byte")
+        import explore as _ex
+        g0 = F.fns[tsf[0]]
+        bad_w = []
+        for n_, width in ((0, 1), (127, 1), (128, 2), (16383, 2), (16384, 3), (2097151, 3), (2097152, 4), (268435455, 4)):
+            def setup_w(exx, st, fr, n_=n_):
+                st.heap[(fr.root(1), ())] = ("c", n_, g0["locals"][1])
+            exw = _ex.Explorer(F)
+            rets = [pw.ret for pw in exw.run(g0["path"], setup=setup_w) if pw.kind == "return"]
+            if not (len(rets) == 1 and rets[0][0] == "c" and rets[0][1] == 1 + width + n_):
+                bad_w.append("%d -> %s (want %d)" % (n_, [conn.short(r) for r in rets], 1 + width + n_))
+        if bad_w:
+            r5.violation("width-table", "%s does not add 1 + the variable-byte-integer width to the Remaining Length: %s" % (g0["path"].split("::")[-1], bad_w[:4]))
         else:
-            r5.violation("width-table", "remaining_length_to_total_size does not implement the variable-byte-integer width table: %s" % table)
+            r5.ok("width-table", "1 + {1,2,3,4} bytes at the boundaries 128 / 16384 / 2097152")
     r5.ok("gate-shape") if not problems else None
     conn.prune_path_cache(F)
